@@ -325,7 +325,34 @@ func runC18(c *Ctx) {
 					first := e.To.Instrs[0]
 					isBan := func(in ssa.Instruction) bool {
 						cl, ok := in.(ssa.CallInstruction)
-						return ok && CalleeName(cl.Common()) == "(*p2p.Peer).banPeer"
+						if !ok {
+							return false
+						}
+						if CalleeName(cl.Common()) == "(*p2p.Peer).banPeer" {
+							return true
+						}
+						// a same-package helper whose every non-error path calls banPeer
+						if g := cl.Common().StaticCallee(); g != nil && strings.HasPrefix(FuncKey(g), "pkg/p2p.") && len(g.Blocks) > 0 {
+							if len(CallsIn(g, "(*p2p.Peer).banPeer")) == 0 {
+								return false
+							}
+							gf := factsOf(g)
+							first := g.Blocks[0].Instrs[0]
+							path := reachesReturnAvoiding(first, func(x ssa.Instruction) bool {
+								c2, ok2 := x.(ssa.CallInstruction)
+								return ok2 && CalleeName(c2.Common()) == "(*p2p.Peer).banPeer"
+							}, func(r *ssa.Return) bool {
+								// returns on the address-construction error edge are allowed
+								for _, f := range gf.FactsAt(r.Block()) {
+									if f.IsCmp && f.Op.String() == "!=" && f.R.Sym == "nil" && strings.Contains(f.L.String(), "NewMultiaddr") {
+										return false
+									}
+								}
+								return true
+							})
+							return path == nil
+						}
+						return false
 					}
 					if isBan(first) {
 						return true
